@@ -17,6 +17,7 @@ import (
 	"fmt"
 	"math/rand"
 	"net"
+	"os/exec"
 	"strconv"
 	"sync"
 
@@ -40,7 +41,8 @@ type capture struct {
 	s4     []server.VerifSent4
 	s6     []server.VerifSent6
 	frames [][]byte
-	l2real bool // let L2 replies run into sendEthernet up to the frame hook
+	fifs   []net.Interface // the interface each frame was handed to
+	l2real bool            // let L2 replies run into sendEthernet up to the frame hook
 }
 
 var capt = &capture{}
@@ -65,6 +67,7 @@ func installServerHooks() {
 	server.VerifFrameHook = func(iface net.Interface, frame []byte) bool {
 		capt.mu.Lock()
 		capt.frames = append(capt.frames, append([]byte(nil), frame...))
+		capt.fifs = append(capt.fifs, iface)
 		capt.mu.Unlock()
 		return true
 	}
@@ -78,7 +81,7 @@ func installServerHooks() {
 
 func (c *capture) reset() {
 	c.mu.Lock()
-	c.s4, c.s6, c.frames = nil, nil, nil
+	c.s4, c.s6, c.frames, c.fifs = nil, nil, nil, nil
 	c.mu.Unlock()
 }
 
@@ -289,10 +292,11 @@ func feed4on(t *Trace, ll *live4, in in4, r *rand.Rand, evname string) {
 	e := Ev{"ev": evname, "in": in.ev(), "parsed": perr == nil, "panic": pan != nil}
 	out := Ev{"sent": false, "n": 0, "type": -1, "opcode": -1, "eqxid": false, "eqhtype": false, "eqchaddr": false, "eqflags": false,
 		"eqgiaddr": false, "eqrai": false, "eqcid": false, "pgi": false, "pbc": false, "pci": false, "pyi": false, "port": 0, "ifindex": 0,
-		"woob": false, "l2": false, "frame": false, "fdmac": false, "fdip": false, "fsport": 0, "fdport": 0}
+		"woob": false, "l2": false, "frame": false, "fdmac": false, "fdip": false, "fsport": 0, "fdport": 0, "fif": 0, "fsmac": false}
 	capt.mu.Lock()
 	sent := append([]server.VerifSent4(nil), capt.s4...)
 	frames := capt.frames
+	fifs := capt.fifs
 	capt.mu.Unlock()
 	out["n"] = len(sent)
 	if len(sent) >= 1 && perr == nil && sent[0].Resp == nil {
@@ -332,6 +336,13 @@ func feed4on(t *Trace, ll *live4, in in4, r *rand.Rand, evname string) {
 				out["fdip"] = ip.DstIP.Equal(s.Resp.YourIPAddr)
 				out["fsport"] = int(udp.SrcPort)
 				out["fdport"] = int(udp.DstPort)
+				if len(fifs) == 1 {
+					// the interface the frame leaves on, and the source address it carries: that interface's own
+					out["fif"] = fifs[0].Index
+					if real, err := net.InterfaceByIndex(fifs[0].Index); err == nil {
+						out["fsmac"] = bytes.Equal(eth.SrcMAC, real.HardwareAddr) && fifs[0].Name == real.Name
+					}
+				}
 			}
 		}
 	} else if len(sent) >= 1 {
@@ -344,6 +355,18 @@ func feed4on(t *Trace, ll *live4, in in4, r *rand.Rand, evname string) {
 func runD4(t *Trace, seed int64, full bool, shard, shards int) {
 	k := 0
 	take := func() bool { k++; return k%shards == shard }
+	// a long-running process (see runD6): 300 requests that end in "nil and stop", then requests that must be answered
+	{
+		ll := newLive4(0)
+		for i := 0; i < 330; i++ {
+			r := rand.New(rand.NewSource(seed*7001 + int64(shard*1000+i)))
+			final := "nil"
+			if i >= 300 || i%50 == 49 {
+				final = "base"
+			}
+			feed4on(t, ll, in4{parse: true, op: 1, mt: 1 + 2*(i%2), gi: []string{"zero", "routable"}[i%2], ci: "zero", bflag: i%3 == 0, final: final, yi: true, bound: 0, oobif: 7, hlen: 6}, r, "d4")
+		}
+	}
 	// (1) C11 product: opcode x message type x parse x giaddr set/unset x chain result
 	ops := make([]int, 0, 256)
 	mts := make([]int, 0, 257)
@@ -425,6 +448,19 @@ func runD4Addr(t *Trace, seed int64, reps int) {
 	} else if !capt.l2real {
 		ifC = 9
 	}
+	// one more arrival interface whose index is ifB + 256 (what the server keeps per interface must be keyed by the
+	// whole index): a bridge device, created for this run when the sandbox allows it
+	if capt.l2real {
+		name := fmt.Sprintf("vfbr%d", ifB+256)
+		exec.Command("ip", "link", "del", name).Run()
+		if err := exec.Command("ip", "link", "add", "name", name, "index", strconv.Itoa(ifB+256), "type", "bridge").Run(); err == nil {
+			defer exec.Command("ip", "link", "del", name).Run()
+			if x, err := net.InterfaceByIndex(ifB + 256); err == nil && len(x.HardwareAddr) == 6 {
+				ifC = x.Index
+			}
+		}
+		t.Emit(Ev{"ev": "note", "what": "high_ifindex", "value": ifC == ifB+256, "ifC": ifC})
+	}
 	// long-lived listeners: one bound to ifA, one unbound; requests arrive on changing interfaces
 	lives := map[int]*live4{ifA: newLive4(ifA), 0: newLive4(0)}
 	classes := []string{"zero", "routable", "linklocal", "bcast"}
@@ -460,16 +496,16 @@ func runD4Addr(t *Trace, seed int64, reps int) {
 // DHCPv6
 
 type in6 struct {
-	parse  bool
-	depth  int
-	outer  string
-	itype  int
-	cid    bool
-	rapid  bool
-	src    string
-	final  string
-	bound  int
-	oobif  int
+	parse bool
+	depth int
+	outer string
+	itype int
+	cid   bool
+	rapid bool
+	src   string
+	final string
+	bound int
+	oobif int
 }
 
 func (i in6) ev() Ev {
@@ -649,6 +685,17 @@ func feed6(t *Trace, in in6, r *rand.Rand) {
 
 func runD6(t *Trace, seed int64, full bool, shard, shards int) {
 	k := 0
+	// a long-running process: several hundred requests whose chain ends in "nil and stop" (nothing is sent), and
+	// afterwards ordinary requests are still answered - whatever the server keeps per request must be given back
+	// on every path (every shard is its own process and starts with this)
+	for i := 0; i < 330; i++ {
+		r := rand.New(rand.NewSource(seed*7001 + int64(shard*1000+i)))
+		final := "nil"
+		if i >= 300 || i%50 == 49 {
+			final = "resp"
+		}
+		feed6(t, in6{true, i % 3, "forw", []int{1, 3, 5, 6, 8, 11}[i%6], true, false, []string{"global", "linklocal"}[i%2], final, []int{5, 0}[i%2], 7}, r)
+	}
 	for _, parse := range []bool{true, false} {
 		for depth := 0; depth <= 4; depth++ {
 			for _, outer := range []string{"forw", "repl"} {
@@ -702,13 +749,13 @@ type synCall struct {
 }
 
 var (
-	synMu      sync.Mutex
-	synCalls   []synCall
-	synFirst4  *dhcpv4.DHCPv4
-	synFirst6  dhcpv6.DHCPv6
-	synOrig    []byte // canonical bytes of the datagram fed to the chain
-	synSetups  []string
-	synReg     sync.Once
+	synMu     sync.Mutex
+	synCalls  []synCall
+	synFirst4 *dhcpv4.DHCPv4
+	synFirst6 dhcpv6.DHCPv6
+	synOrig   []byte // canonical bytes of the datagram fed to the chain
+	synSetups []string
+	synReg    sync.Once
 )
 
 const (
